@@ -6,20 +6,17 @@ ROOT = os.path.dirname(os.path.dirname(os.path.abspath(__file__)))
 BASE = ("cd /repo && /venv/bin/python -m pytest -ra -q -p no:cacheprovider --timeout=900 "
         "--continue-on-collection-errors")
 
-CLAIMED = {
-    'C01': dict(
-        text=("Lean 4 theorems (Props/C01.lean) about the exact-arithmetic model of Epoch's date<->JDE core, for every "
-              "integer year >= -4712 without upper bound: read-back returns the date, consecutive civil dates are 1 day "
-              "apart incl. the 1582 reform step, every day number is hit (bijection), validation accepts exactly the days "
-              "the month has, the three anchors, month names. The model is tied to /repo by running it (binary64 and "
-              "exact instantiations) against the real code bit for bit: sampled in quick, all 3.9 million civil dates "
-              "-4712..6000 in thorough."),
-        note=("Trusted: Lean kernel, Mathlib, axioms propext/Classical.choice/Quot.sound; the hand-written model "
-              "(lean/templates/EpochCore.lean) and its correspondence run; string month names restricted to ASCII; "
-              "quantities are integers or k+1/2 so binary64 is exact and there is no idealisation gap for this property."),
-        technique="Lean 4 proof (staged omega over Meeus' floor recipes) + model/implementation correspondence check",
-        ref='6 C01'),
-}
+import importlib, sys
+sys.path.insert(0, os.path.join(ROOT, 'harness'))
+
+# every harness/cXX.py that defines MANIFEST = dict(text=, note=, technique=, ref=) is a claimed check
+CLAIMED = {}
+for i in range(1, 21):
+    pid = 'C%02d' % i
+    if os.path.exists(os.path.join(ROOT, 'harness', pid.lower() + '.py')):
+        mod = importlib.import_module(pid.lower())
+        if getattr(mod, 'MANIFEST', None):
+            CLAIMED[pid] = mod.MANIFEST
 
 NOT_YET = {}
 for i in range(1, 21):
